@@ -80,3 +80,35 @@ func VT_C15_ListWasteRecords() {
 	}
 	vt.Reach("page")
 }
+
+// More items than the 1000 cap and a page size above the cap: the page is capped and the chain continues.
+func VT_C15_ListWasteRecordsOverCap() {
+	vt.Unwind(1200)
+	const n = 1001
+	m := &Model{}
+	for i := 0; i < n; i++ {
+		m.allWasteRecords = append(m.allWasteRecords, &traits.WasteRecord{Id: strconv.Itoa(i)})
+	}
+	srv := &ModelServer{model: m}
+	ps := vt.Int32("pageSize")
+	vt.Assume(ps > 1000)
+	resp, err := srv.ListWasteRecords(context.Background(), &traits.ListWasteRecordsRequest{PageSize: ps})
+	vt.Assert(err == nil, "well-formed-request-succeeds")
+	if err != nil {
+		return
+	}
+	vt.Assert(len(resp.WasteRecords) == 1000, "page-capped-at-1000")
+	vt.Assert(int(resp.TotalSize) == n, "total-size-is-the-number-of-items")
+	vt.Assert(resp.NextPageToken == "1", "capped-page-continues-with-a-next-token")
+	if resp.NextPageToken != "" {
+		resp2, err2 := srv.ListWasteRecords(context.Background(), &traits.ListWasteRecordsRequest{PageSize: ps, PageToken: resp.NextPageToken})
+		vt.Assert(err2 == nil, "second-page-succeeds")
+		if err2 == nil {
+			vt.Assert(vt.And(len(resp2.WasteRecords) == 1, resp2.NextPageToken == ""), "last-page-has-the-remaining-item")
+			if len(resp2.WasteRecords) == 1 {
+				vt.Assert(resp2.WasteRecords[0].Id == "0", "every-item-exactly-once")
+			}
+		}
+	}
+	vt.Reach("done")
+}
